@@ -100,6 +100,8 @@ class EvalCtx(object):
         # type: (Name | AstName | MultiName | MultiValue | Attribute | ImportedName, list[Name]) -> list[Name]
         node_type = type(node)
         cname = None
+        if any(node is r for r in result):
+            return result  # an import cycle: this name was reached already
         if node_type is AstName:
             ast_name = node  # type: AstName # type: ignore[assignment]
             names = ast_name.flow.names_at(np(ast_name))  # type: ignore[attr-defined]
